@@ -24,7 +24,7 @@ import (
 // one computed from scratch from the final report and the finally assigned pods, whatever the
 // interleaving of the two event streams was.
 func TestVerifC08Conc(t *testing.T) {
-	kit.Run(t, kit.Config{Property: "C08", Unit: "conc", Quick: 150, Thorough: 6000,
+	kit.Run(t, kit.Config{Property: "C08", Unit: "conc", Quick: 1000, Thorough: 30000,
 		Rule: "per case: a sequential prefix of 10-30 events, then concurrently a pod-event goroutine (60-140 events as in unit estimate), a NodeMetric-event goroutine (30-70 add/update/delete events over the same 2-3 nodes) and two reader goroutines (250 Filter / estimate reads each) on one cache, -race; at quiescence the differential and the statement oracle for every node and mode; distinct = (per-node final report kind, #assigned, #estimated, #reflected, nodes, pods); non-trivial = at quiescence some node has a complete report and at least one assigned pod",
 	}, func(c *kit.Case) {
 		r := c.R
